@@ -404,6 +404,70 @@ pub fn strategy() -> BoxedStrategy<Case> {
         .boxed()
 }
 
+/// designed let-abstractions around function naming: (program, the same program with one
+/// sub-expression bound to a fresh name first); both must give the same `r`
+pub const LET_PAIRS: &[(&str, &str)] = &[
+    ("r = (() => do {\n  go = q => if q <= 0 then 0 else go(q - 1) + 1\n  return go\n})()(3)", "t = (() => do {\n  go = q => if q <= 0 then 0 else go(q - 1) + 1\n  return go\n})()\nr = t(3)"),
+    ("r = do {\n  fct = do {\n    g = n => if n <= 1 then 1 else n * g(n - 1)\n    return g\n  }\n  return fct(5)\n}", "t = do {\n  g = n => if n <= 1 then 1 else n * g(n - 1)\n  return g\n}\nr = do {\n  fct = t\n  return fct(5)\n}"),
+    ("r = do {\n  w9 = (w9, k9) => w9 * k9\n  return w9(21, 2)\n}", "t = (w9, k9) => w9 * k9\nr = do {\n  w9 = t\n  return w9(21, 2)\n}"),
+    ("w8 = (w8, k9) => w8 * k9\nr = w8(21, 2)", "t = (w8, k9) => w8 * k9\nw8 = t\nr = w8(21, 2)"),
+    ("o8 = (x, o8?) => o8 ?? x\nr = o8(7)", "t = (x, o8?) => o8 ?? x\no8 = t\nr = o8(7)"),
+    ("acc = (acc, x) => acc + x\nr = reduce([1, 2, 3], acc, 0)", "t = (acc, x) => acc + x\nacc = t\nr = reduce([1, 2, 3], acc, 0)"),
+    ("r = [n => n + 1, n => n * 2] via (f => f(5))", "t = n => n + 1\nr = [t, n => n * 2] via (f => f(5))"),
+    ("fs = [n => if n <= 0 then 0 else 1 + fs[0](n - 1)]\nr = fs[0](3)", "t = n => if n <= 0 then 0 else 1 + fs[0](n - 1)\nfs = [t]\nr = fs[0](3)"),
+    ("r = sort([{k: 2}, {k: 1}])", "t = {k: 1}\nr = sort([{k: 2}, t])"),
+    ("r = keys(count_by([\"b\", \"a\", \"c\", \"a\"], s => s))", "t = count_by([\"b\", \"a\", \"c\", \"a\"], s => s)\nr = keys(t)"),
+];
+
+pub struct LetPairs;
+
+impl Check for LetPairs {
+    type Case = u8;
+    fn name(&self) -> &'static str {
+        "let-pairs"
+    }
+    fn run(&self, c: &u8, ctx: &mut Ctx) -> Outcome {
+        let (direct, abstracted) = LET_PAIRS[*c as usize % LET_PAIRS.len()];
+        ctx.label("designed-let-abstraction");
+        ctx.nontrivial(hash_str(direct));
+        let run = |src: &str| -> Obs {
+            let s = Sess::new();
+            s.set_inputs(&[]);
+            for st in src.split("\n").fold(Vec::<String>::new(), |mut acc, line| {
+                // statements span several lines when a do-block is open
+                if let Some(last) = acc.last_mut() {
+                    if last.matches('{').count() > last.matches('}').count() {
+                        last.push('\n');
+                        last.push_str(line);
+                        return acc;
+                    }
+                }
+                acc.push(line.to_string());
+                acc
+            }) {
+                s.obs(&st)?;
+            }
+            s.obs("r")
+        };
+        let (a, b) = (run(direct), run(abstracted));
+        let same = match (&a, &b) {
+            (Ok(x), Ok(y)) => x.same_nanclass(y),
+            (Err(_), Err(_)) => true,
+            _ => false,
+        };
+        if !same {
+            fail!(format!("let-pair:differs:{}", c), "the program\n{}\ngives r = {:?}; with one sub-expression bound to a fresh name first\n{}\nit gives r = {:?}", direct, a, abstracted, b);
+        }
+        // the first of the two must also be stable under re-evaluation
+        let again = run(direct);
+        if !matches!((&a, &again), (Ok(x), Ok(y)) if x.same_nanclass(y)) && !(a.is_err() && again.is_err()) {
+            fail!("let-pair:rerun-differs", "two evaluations of\n{}\ngive {:?} and {:?}", direct, a, again);
+        }
+        Ok(())
+    }
+}
+
 pub fn run(ctx: &mut Ctx) {
+    ctx.run_enum(&LetPairs, (0..LET_PAIRS.len() as u8).into_iter(), false);
     ctx.run_random(&Deterministic, strategy(), ctx.tier.pick(20_000, 300_000));
 }
